@@ -30,6 +30,9 @@ func vXMLScript(script string) io.Reader {
 		case 'X':
 			b.WriteString("<a></b>")
 			damaged = true
+		case 'Z':
+			// the underlying (decompressing) reader fails: truncated stream
+			return io.MultiReader(strings.NewReader(b.String()), vFailingReader{})
 		}
 	}
 	if !damaged {
@@ -37,3 +40,7 @@ func vXMLScript(script string) io.Reader {
 	}
 	return strings.NewReader(b.String())
 }
+
+type vFailingReader struct{}
+
+func (vFailingReader) Read(p []byte) (int, error) { return 0, io.ErrUnexpectedEOF }
